@@ -30,6 +30,7 @@ GROUPS = [
     ("reloaded from disk", lambda k: k.endswith("/ttf-reloaded"), lambda k: k[:-13] + "/ttf"),
     ("reloaded from disk (otf)", lambda k: k.endswith("/otf-reloaded"), lambda k: k[:-13] + "/otf-first"),
     ("static after variable", lambda k: k.endswith("/static-after-var"), lambda k: k[:-17] + "/static-first"),
+    ("static after variable font with info overrides", lambda k: k.endswith("/static-after-vfinfo"), lambda k: k[:-20] + "/static-first"),
     ("variable after static", lambda k: k.endswith("/vcff2-first"), lambda k: k[:-12] + "/vcff2-after"),
 ]
 
